@@ -1139,7 +1139,9 @@ func c19Gen(r *Rand, tier string, emit func(op any)) {
 		if b == '~' || b == '^' {
 			continue
 		}
-		for _, s := range []string{"~" + string([]byte{byte(b)}), string([]byte{byte(b)}) + "~", "~" + string([]byte{byte(b)}) + "x"} {
+		// "z"+b+token: the byte under test is the SECOND byte of the name (the token itself starts with two letters, so
+		// the other shapes never put a non-letter there; mutant sink.go#47 validated from the third byte on)
+		for _, s := range []string{"~" + string([]byte{byte(b)}), string([]byte{byte(b)}) + "~", "~" + string([]byte{byte(b)}) + "x", "z" + string([]byte{byte(b)}) + "~"} {
 			emit(map[string]any{"k": "reg", "what": "sink", "names": []string{hx([]byte(s))}, "probes": []string{}})
 		}
 	}
